@@ -149,6 +149,10 @@ def gen_positions(r, tm):
         if i + 1 < len(T):
             d = T[i + 1] - t
             pos.append(("mid", t + d / 2, False))
+            if tm["lattice"] is not None and d != 0:
+                # a hair (2^-22 of the interval) on either side of the middle: strictly closer to one sample, no tie
+                pos.append(("past_mid", t + d / 2 + d / 2 ** 22, False))
+                pos.append(("before_mid", t + d / 2 - d / 2 ** 22, False))
             pos.append(("between", t + d / 4, False))
             pos.append(("between", t + 3 * d / 4, False))
     pos.append(("after", T[-1] + step, False))
@@ -406,7 +410,10 @@ def check_lookup(st, tr, tm, r, cx, samples=None):
         return any(abs(q - b) <= REL * max(abs(q), abs(b)) for b in bnds[max(0, k - 2):k + 2])
 
     def on_lattice(q):
-        return lattice is not None and (q / lattice).denominator == 1 and abs(q / lattice) < 2 ** 45
+        # (a 2^24 times finer lattice than the samples': the hair's-breadth queries around the middles sit on it; everything
+        # stays an integer multiple below 2^50, i.e. sums, differences and halves are exact in binary64)
+        fine = lattice / 2 ** 24 if lattice is not None else None
+        return fine is not None and (q / fine).denominator == 1 and abs(q / fine) < 2 ** 50
 
     others = [v for v in si.TIME if v != u]
     for tag, pos, bare_only in gen_positions(r, tm):
